@@ -356,6 +356,19 @@ func (ns *normState) localIdentEdits(c *inlCallee, suffix string, from, to token
 		}
 		return false
 	}
+	// the symbolic variable of a type switch (switch v := x.(type)) has no object of its own
+	ast.Inspect(c.decl, func(n ast.Node) bool {
+		ts, ok := n.(*ast.TypeSwitchStmt)
+		if !ok {
+			return true
+		}
+		if as, ok := ts.Assign.(*ast.AssignStmt); ok && len(as.Lhs) == 1 {
+			if id, ok := as.Lhs[0].(*ast.Ident); ok && id.Name != "_" && id.Pos() >= from && id.End() <= to {
+				eds = append(eds, posEdit{id.Pos(), id.End(), id.Name + suffix})
+			}
+		}
+		return true
+	})
 	ast.Inspect(c.decl, func(n ast.Node) bool {
 		id, ok := n.(*ast.Ident)
 		if !ok || id.Name == "_" || id.Pos() < from || id.End() > to {
